@@ -28,6 +28,8 @@ pub mod sampled {
     pub enum Id {
         Ordinal(i32),
         Uuid([u8; 16]),
+        /// the eight id bytes of a connectionless message
+        Connless([u8; 8]),
     }
     #[derive(Clone, Debug)]
     pub struct Vector {
@@ -57,7 +59,12 @@ pub mod sampled {
                 continue;
             }
             let bools: Vec<usize> = if f.len() == 5 && f[4] != "-" { f[4].split(',').map(|x| x.parse().unwrap()).collect() } else { Vec::new() };
-            let id = if f[1].len() == 32 {
+            let id = if f[0] == "connless" {
+                let b = hex(f[1]);
+                let mut a = [0u8; 8];
+                a.copy_from_slice(&b);
+                Id::Connless(a)
+            } else if f[1].len() == 32 {
                 let b = hex(f[1]);
                 let mut a = [0u8; 16];
                 a.copy_from_slice(&b);
@@ -79,12 +86,20 @@ pub mod sampled {
         match id {
             Id::Ordinal(i) => MessageId::Ordinal(*i),
             Id::Uuid(u) => MessageId::Uuid(uuid::Uuid::from_bytes(*u)),
+            Id::Connless(_) => unreachable!(),
+        }
+    }
+    fn connless_id(id: &Id) -> [u8; 8] {
+        match id {
+            Id::Connless(c) => *c,
+            _ => unreachable!(),
         }
     }
     fn type_id(id: &Id) -> TypeId {
         match id {
             Id::Ordinal(i) => TypeId::Ordinal(*i as u16),
             Id::Uuid(u) => TypeId::Uuid(uuid::Uuid::from_bytes(*u)),
+            Id::Connless(_) => unreachable!(),
         }
     }
     /// one vector against the codec
@@ -112,6 +127,31 @@ pub mod sampled {
                     assert!(enc.as_deref() == Some(&v.bytes[..]), "re-encoding differs from the canonical bytes: {}", what);
                 } else {
                     assert!(enc.is_err(), "violation of a described constraint accepted: {}", what);
+                }
+            }
+            "connless" => {
+                use crate::msg::Connless;
+                let id = connless_id(&v.id);
+                let mut w: Vec<Warning> = Vec::new();
+                let mut buf: Vec<u8> = Vec::with_capacity(v.bytes.len() + 64);
+                match Connless::decode_connless(&mut w, id, &mut Unpacker::new(&v.bytes)) {
+                    Ok(m) => {
+                        assert!(v.ok, "violation of a described constraint accepted: {}", what);
+                        assert!(w.is_empty(), "canonical bytes decode with a warning: {}", what);
+                        assert!(m.connless_id() == id, "message reports another id: {}", what);
+                        let enc = with_packer(&mut buf, |p| m.encode_connless(p).map(|b| b.to_vec())).expect("re-encoding needs more room");
+                        assert!(enc == v.bytes, "re-encoding differs from the canonical bytes: {}", what);
+                        // with the id in front (Connless::decode / encode)
+                        let mut full = id.to_vec();
+                        full.extend_from_slice(&v.bytes);
+                        let mut w2: Vec<Warning> = Vec::new();
+                        let m2 = Connless::decode(&mut w2, &mut Unpacker::new(&full)).unwrap_or_else(|_| panic!("canonical bytes with id rejected: {}", what));
+                        assert!(w2.is_empty(), "canonical bytes with id decode with a warning: {}", what);
+                        let mut buf2: Vec<u8> = Vec::with_capacity(full.len() + 64);
+                        let enc2 = with_packer(&mut buf2, |p| m2.encode(p).map(|b| b.to_vec())).expect("re-encoding needs more room");
+                        assert!(enc2 == full, "re-encoding with id differs from the canonical bytes: {}", what);
+                    }
+                    Err(_) => assert!(!v.ok, "canonical bytes rejected: {}", what),
                 }
             }
             _ => {
@@ -165,6 +205,7 @@ pub mod sampled {
         let head = match &v.id {
             Id::Ordinal(i) => (*i << 1) | sys,
             Id::Uuid(_) => sys,
+            Id::Connless(_) => unreachable!(),
         };
         let framed = frame(head);
         let mut w: Vec<Warning> = Vec::new();
@@ -191,6 +232,30 @@ pub mod sampled {
             assert!(crate::msg::decode(&mut w2, &mut Unpacker::new(&f)).is_err(), "unknown message id {} accepted: {}", bad, what);
         }
     }
+    /// gamenet/common: integers written as decimal strings (connectionless messages) -- every i32 must be writable
+    /// and read back as itself, in the canonical decimal form
+    pub fn check_int_strings() {
+        use libtw2_gamenet_common::msg::int_from_string;
+        use libtw2_gamenet_common::msg::string_from_int;
+        let mut vals: Vec<i32> = vec![0, i32::MIN, i32::MAX, i32::MIN + 1, i32::MAX - 1];
+        let mut p: i64 = 1;
+        while p <= i32::MAX as i64 {
+            for d in [-1i64, 0, 1] {
+                for s in [-1i64, 1] {
+                    let x = s * (p + d);
+                    if x >= i32::MIN as i64 && x <= i32::MAX as i64 {
+                        vals.push(x as i32);
+                    }
+                }
+            }
+            p *= 10;
+        }
+        for x in vals {
+            let s = string_from_int(x);
+            assert!(&s[..] == format!("{}", x).as_bytes(), "string_from_int({}) is not the decimal form", x);
+            assert!(int_from_string(&s).ok() == Some(x), "int_from_string(string_from_int({})) differs", x);
+        }
+    }
     static DONE: Mutex<Option<Vec<Vector>>> = Mutex::new(None);
     /// all vectors, once per process; returns the vectors for the arbitrary-bytes part
     pub fn all_vectors_once() -> Vec<Vector> {
@@ -201,6 +266,7 @@ pub mod sampled {
                 check(x);
                 check_framed(x);
             }
+            check_int_strings();
             println!("C14-VECTORS crate={} vectors={} all as described", env!("CARGO_PKG_NAME"), v.len());
             *g = Some(v);
         }
@@ -216,6 +282,12 @@ pub mod sampled {
             "system" => {
                 let mut w: Vec<Warning> = Vec::new();
                 let _ = System::decode_msg(&mut w, msg_id(&v.id), &mut Unpacker::new(bytes));
+            }
+            "connless" => {
+                let mut w: Vec<Warning> = Vec::new();
+                let _ = crate::msg::Connless::decode_connless(&mut w, connless_id(&v.id), &mut Unpacker::new(bytes));
+                let mut w: Vec<Warning> = Vec::new();
+                let _ = crate::msg::Connless::decode(&mut w, &mut Unpacker::new(bytes));
             }
             _ => {
                 let mut w: Vec<ExcessData> = Vec::new();
